@@ -387,6 +387,9 @@ fn extract_fn(cx: &mut Ctx, specs: &mut Specs, em: &mut Emitter, ex: &Extract) {
         }
     }
     let found: Vec<Found> = match ex.opt("nth").and_then(|n| n.parse::<usize>().ok()) { Some(n) => found.into_iter().skip(n).take(1).collect(), None => found };
+    // a function that is gone (0 candidates) is a soft lost anchor: its own obligations are undecided, the rest of the unit is still
+    // verified (a caller that no longer calls it may now fail its own contract, which is then reported); ambiguity stays a hard error
+    if found.is_empty() { cx.soft.push(format!("lost anchor: {} `{}` in {}: the function is gone", ex.kind, ex.path, ex.file)); return; }
     if found.len() != 1 { cx.err(format!("lost anchor: {} `{}` in {}: {} candidates", ex.kind, ex.path, ex.file, found.len())); return; }
     if ex.opt("poll").as_deref() == Some("yes") || ex.opt("inherent").as_deref() == Some("yes") {
         // A6: the poll of `impl Future for T` becomes the inherent method `T::await_`; S2: `Drop::drop` is verified as an inherent method
